@@ -635,14 +635,16 @@ static int get_elements_in_peer(const struct peer *p, const cJSON *request, cons
 
 int notify_fetchers(const struct element *e, const char *event_name)
 {
+	int ret = 0;
 	for (unsigned int i = 0; i < e->fetch_table_size; i++) {
 		const struct fetch *f = e->fetcher_table[i];
 		if ((f != NULL) &&
 		    (unlikely(notify_fetching_peer(e, f, event_name) != 0))) {
-			return -1;
+			/* A failing fetcher must not keep the others from being notified. */
+			ret = -1;
 		}
 	}
-	return 0;
+	return ret;
 }
 
 cJSON *add_fetch_to_states(const struct peer *request_peer, const cJSON *request, struct fetch *f)
@@ -697,13 +699,15 @@ static int find_fetchers_for_element_in_peer(const struct peer *p,
 
 	struct list_head *item;
 	struct list_head *tmp;
+	int ret = 0;
 	list_for_each_safe (item, tmp, &p->fetch_list) {
 		struct fetch *f = list_entry(item, struct fetch, next_fetch);
 		if (unlikely(add_fetch_to_state_and_notify(p, e, f) != 0)) {
-			return -1;
+			/* A failing fetcher must not keep the others from being notified. */
+			ret = -1;
 		}
 	}
-	return 0;
+	return ret;
 }
 
 int find_fetchers_for_element(struct element *e)
@@ -714,9 +718,8 @@ int find_fetchers_for_element(struct element *e)
 	const struct list_head *peer_list = get_peer_list();
 	list_for_each_safe (item, tmp, peer_list) {
 		struct peer *p = list_entry(item, struct peer, next_peer);
-		ret = find_fetchers_for_element_in_peer(p, e);
-		if (unlikely(ret != 0)) {
-			return ret;
+		if (unlikely(find_fetchers_for_element_in_peer(p, e) != 0)) {
+			ret = -1;
 		}
 	}
 	return ret;
